@@ -1,6 +1,7 @@
 import VModel.Spec
 import VProofs.Lemmas.TagFill
 import VProofs.Lemmas.TagMerge
+import VProofs.Lemmas.TagRel
 /-!
 # A tag-aware scorer: structure of the built table, and `add_tag_scores` against `tagNgramScore` (for C06)
 -/
@@ -110,10 +111,14 @@ theorem tagGo_spec (cfg : Cfg) (K : Nat) (sts : List (Option Nat)) :
 
 /-! ## the structure of a tag-aware scorer -/
 
-/-- what `…BoundaryTag::new` establishes about the tag table -/
+/-- what `…BoundaryTag::new` establishes about the tag table: every token has the same number `nRel` of rows, at least
+`window + 1` and more than every relative position of the tag n-grams -/
 def TagScorerOK (cfg : Cfg) (window : Nat) (T : List (List (TagNgramData α))) (L : Nat → Nat) (sc : PmaScorer α) : Prop :=
-  ∃ (tw : TW) (vec : Nat → Nat → Nat → Option (List Int)),
-    sc.tagWeight = some tw ∧ tw.length = T.length ∧ (∀ t, t < T.length → rowLen tw t = window + 1) ∧
+  ∃ (tw : TW) (vec : Nat → Nat → Nat → Option (List Int)) (nRel : Nat),
+    sc.tagWeight = some tw ∧ tw.length = T.length ∧ (∀ t, t < T.length → rowLen tw t = nRel) ∧
+    window + 1 ≤ nRel ∧
+    (∀ (i : Nat) (tm : List (TagNgramData α)) (d : TagNgramData α) (w : TagWeight),
+      T[i]? = some tm → d ∈ tm → w ∈ d.weights → w.rel < nRel) ∧
     (∀ t r id, ((cell tw t r).reverse.find? (fun e => decide (e.1 = id))).map Prod.snd
       = (vec t r id).map (WV.ofList cfg)) ∧
     (∀ t r id v, vec t r id = some v → v.length = L t) ∧
@@ -127,8 +132,14 @@ theorem buildBoundaryTag_tagOK (cfg : Cfg) (window : Nat) (L : Nat → Nat) (bes
     (sc : PmaScorer α)
     (h : buildBoundaryTag cfg window T.length (addAll PWT.add (bes ++ tagEntries T) []) = .ok sc) :
     TagScorerOK cfg window T L sc := by
+  have hrows := nRelOf_ge window (addAll PWT.add (bes ++ tagEntries T) [])
+  have hrel := tagRel_lt_nRel window bes T
   unfold buildBoundaryTag at h
   simp only at h
+  change (match fillTagWeights cfg _ 0 (List.replicate T.length
+      (List.replicate (nRelOf window (addAll PWT.add (bes ++ tagEntries T) [])) ([] : List (Nat × WV)))) with
+    | .ok tw => _ | .err x => _ | .panic p => _ | .ub p => _) = _ at h
+  generalize nRelOf window (addAll PWT.add (bes ++ tagEntries T) []) = nRel at h hrows hrel
   split at h
   · rename_i tw hfill
     split at h
@@ -143,7 +154,8 @@ theorem buildBoundaryTag_tagOK (cfg : Cfg) (window : Nat) (L : Nat → Nat) (bes
         intro e he
         obtain ⟨id, hid⟩ := List.mem_iff_getElem?.mp he
         exact (hM1 id e hid).1.1
-      refine ⟨tw, fun t r id => (M[id]?).bind (fun e => tlookup (t, r) e.2.tagInfo), rfl, ?_, ?_, ?_, ?_, ?_, ?_⟩
+      refine ⟨tw, fun t r id => (M[id]?).bind (fun e => tlookup (t, r) e.2.tagInfo), nRel, rfl, ?_, ?_, hrows, hrel,
+        ?_, ?_, ?_, ?_⟩
       · rw [f1, List.length_replicate]
       · intro t ht
         rw [f2, rowLen_replicate _ _ _ ht]
@@ -196,14 +208,14 @@ theorem isum_range_select (N a : Nat) (f : Nat → Int) :
       · subst h2; rw [if_pos rfl, if_pos (show a < a + 1 by omega)]; omega
       · rw [if_neg h2, if_neg (show ¬ a < N + 1 by omega)]; rfl
 
-/-- summing `tagSum` over the rows `rel = 0..window` at the prefixes `seq.take (i + rel + 1)` gives `tagNgramScore` -/
-theorem tagSum_total (tm : List (TagNgramData α)) (window : Nat) (seq : List α) (i c : Nat)
-    (hrel : ∀ d ∈ tm, ∀ w ∈ d.weights, w.rel ≤ window) :
-    ((List.range (window + 1)).map fun rel =>
+/-- summing `tagSum` over the rows `rel = 0..N-1` at the prefixes `seq.take (i + rel + 1)` gives `tagNgramScore` -/
+theorem tagSum_total (tm : List (TagNgramData α)) (N : Nat) (seq : List α) (i c : Nat)
+    (hrel : ∀ d ∈ tm, ∀ w ∈ d.weights, w.rel < N) :
+    ((List.range N).map fun rel =>
       if i + rel < seq.length then tagSum tm rel (seq.take (i + rel + 1)) c else 0).sum
       = tagNgramScore tm seq i c := by
   unfold tagNgramScore
-  have h1 : ∀ rel ∈ List.range (window + 1),
+  have h1 : ∀ rel ∈ List.range N,
       (if i + rel < seq.length then tagSum tm rel (seq.take (i + rel + 1)) c else 0)
       = (tm.map fun d => (d.weights.map fun w =>
           if w.rel = rel then
@@ -231,26 +243,25 @@ theorem tagSum_total (tm : List (TagNgramData α)) (window : Nat) (seq : List α
   rw [isum_comm]
   apply isum_map_congr
   intro w hw
-  rw [isum_range_select (window + 1) w.rel (fun rel =>
+  rw [isum_range_select N w.rel (fun rel =>
     if i + rel < seq.length ∧ d.ngram.isSuffixOf (seq.take (i + rel + 1)) = true then getZ w.weights (c : Int) else 0)]
-  rw [if_pos (by have := hrel d hd w hw; omega)]
+  rw [if_pos (hrel d hd w hw)]
 
 /-- `add_tag_scores` of a tag-aware scorer on the states recorded by `predict` -/
 theorem pmaAddTagScores_spec (cfg : Cfg) (window : Nat) (T : List (List (TagNgramData α))) (L : Nat → Nat)
     (sc : PmaScorer α) (hsc : TagScorerOK cfg window T L sc)
     (tid : Nat) (tm : List (TagNgramData α)) (htid : T[tid]? = some tm)
-    (hrel : ∀ d ∈ tm, ∀ w ∈ d.weights, w.rel ≤ window)
     (seq : List α) (i : Nat) (hi : i ≤ seq.length) (sc0 : List Int) (hs : sc0.length = vlen cfg (L tid)) :
     ∃ sc', pmaAddTagScores sc tid i (statesOf sc.pats seq) sc0 = .ok sc' ∧ sc'.length = sc0.length ∧
       ∀ c : Nat, getZ sc' (c : Int) = getZ sc0 (c : Int) + tagNgramScore tm seq i c := by
-  obtain ⟨tw, vec, h1, h2, h3, h4, h5, h6, h7⟩ := hsc
+  obtain ⟨tw, vec, nRel, h1, h2, h3, _, hrel, h4, h5, h6, h7⟩ := hsc
   have hlt : tid < T.length := by
     rcases Nat.lt_or_ge tid T.length with h | h
     · exact h
     · rw [List.getElem?_eq_none h] at htid; cases htid
   have hrow : ∃ row, tw[tid]? = some row := ⟨tw[tid]'(by omega), List.getElem?_eq_getElem (by omega)⟩
   obtain ⟨row, hrow⟩ := hrow
-  have hrl : row.length = window + 1 := by
+  have hrl : row.length = nRel := by
     have := h3 tid hlt
     unfold rowLen at this
     rw [hrow] at this
@@ -303,7 +314,7 @@ theorem pmaAddTagScores_spec (cfg : Cfg) (window : Nat) (T : List (List (TagNgra
       simp only [F]
       rw [if_neg (by omega)])
   refine ⟨sc', e1, e2, fun c => ?_⟩
-  rw [e3 c, hrl, ← tagSum_total tm window seq i c hrel]
+  rw [e3 c, hrl, ← tagSum_total tm nRel seq i c (fun d hd w hw => hrel tid tm d w htid hd hw)]
   congr 1
   apply isum_map_congr
   intro j _
